@@ -76,6 +76,7 @@ fn main() {
 fn warm_up() {
     #[cfg(feature = "e3")]
     {
+        db::warm_up_all_items();
         for p in ["C16", "C18", "C08", "C24", "C20"] {
             for s in 0..3 {
                 let c = props::make_case(p, 0xABCD00 + s, props::Tier::Quick);
